@@ -309,9 +309,9 @@ def _cg_grid(tier):
     import itertools
     n2 = [p for p in itertools.product((0, 1, -1), repeat=2) if 0 in p]
     if tier == 'quick':
-        return [(2, n2, 1)]
-    n3 = [p for p in itertools.product((0, 1, -1), repeat=3) if p.count(0) >= 2] + [(1, -1, 0), (0, 1, 1), (-1, 0, 1)]
-    return [(2, n2, 1), (2, [(0, 0), (1, 0), (0, -1)], 2), (3, n3, 1), (3, [(1, 0, 0), (0, -1, 0)], 2)]
+        return []       # measured: 60-90 paths and 200+ s per member (numpy division semantics + sqrt): thorough tier only
+    n3 = [(0, 0, 0), (1, 0, 0), (0, -1, 0), (1, -1, 0)]
+    return [(2, n2, 1), (2, [(0, 0), (1, 0)], 2), (3, n3, 1), (3, [(1, 0, 0)], 2)]
 
 
 FUNCS = ['trust_region.trsbox', 'trust_region.alt_trust_step', 'trust_region.d_within_bounds']
@@ -348,8 +348,8 @@ def harnesses(tier, seed):
                                   bounds="n=%d, %d iteration(s) of the sliced CG loop of trsbox from ANY state satisfying CG-INV; xopt, box, Delta, H (symmetric), d, s, gnew all symbolic; fixed-variable pattern %s" % (n, steps, list(xb)),
                                   assumptions=["CG-INV at the loop head (DESIGN 4/C12): box, fixed variables on their bounds, delsq = Delta^2 - sum_fixed d_i^2 > 0, |d_free|^2 <= delsq, conjugacy when beta != 0",
                                                "real arithmetic (QF_NRA); the model gradient g enters only through gnew (obligations are stated relative to the pre-state)"],
-                                  expect=['cg:point-stays-in-box' if steps == 1 else 'cg1:point-stays-in-box'], nproc=None,
-                                  wall_budget=(120 if tier == 'quick' else 900), expect_exhaustive=False, max_paths=2000))
+                                  expect=['cg:point-stays-in-box' if steps == 1 else 'cg1:point-stays-in-box'], nproc=1,
+                                  wall_budget=600, expect_exhaustive=False, max_paths=2000))
     hs.append(Harness("clip-binary64", 'dfverif.checks.c12', 'body_clip_fp', params={}, cfg=core.Cfg(fork_queries=True, qtimeout_ms=120000, logic='QF_FP'),
                       functions=['trust_region.d_within_bounds'], bounds="IEEE binary64, one coordinate, |values| <= 1000",
                       assumptions=["finite inputs, sl <= xopt <= su"], expect=['clip:clipped-point-exactly-in-box'], nproc=1, replay=False))
